@@ -408,6 +408,23 @@ func TestC18(t *testing.T) {
 		key, _ := json.Marshal(c)
 		ev.Eval(string(key), true)
 		ev.Check(rt, "c18.value", c, checkDTValue(c))
+		if rapid.IntRange(0, 3).Draw(rt, "pz") == 0 {
+			// the zone of the process is no input: the same relations hold when time.Local is a zone that
+			// uses the value's offset (time.Parse then hands back values in time.Local)
+			saved := time.Local
+			for _, z := range []string{"America/New_York", "Australia/Sydney", "Asia/Kolkata"} {
+				if loc, err := time.LoadLocation(z); err == nil {
+					time.Local = loc
+					v := checkDTValue(c)
+					time.Local = saved
+					if v != nil {
+						v.Msg = "with time.Local = " + z + ": " + v.Msg
+					}
+					ev.Check(rt, "c18.value", c, v)
+				}
+			}
+			ev.Label("random:under_three_process_zones")
+		}
 	})
 	ev.rapidProp(t, "random_hostile", func(rt *rapid.T) {
 		var data string
